@@ -20,6 +20,7 @@ RULE = ("Hypothesis: base = well-formed sequence on 1-2 channels with time/key s
         "distinct by case digest.")
 RULE = RULE + " Round f: an identical ill-formed decoration (a pitch struck twice without note-off) on both sides."
 RULE = RULE + " Round i: enharmonic twins as the perturbed key value."
+RULE = RULE + " Round j: double perturbations (velocity + duration / pitch)."
 ASSUMPTIONS = ["for a single-note channel change the result under ignore_channel is not specified by the statement and not checked",
                "trailing rests (total duration) are not an attribute the statement lists; partners always have equal content"]
 TIERS = {"quick": dict(shards=8, examples=1200, alt_ppqn=[480], alt_shards=2),
@@ -29,7 +30,8 @@ FLAGS = ["ch", "ts", "ks", "vel"]
 OWNER = {"velocity": "vel", "ts_value": "ts", "ts_tick": "ts", "ts_add": "ts", "ts_remove": "ts",
          "ks_value": "ks", "ks_tick": "ks", "ks_add": "ks", "ks_remove": "ks", "relabel": "ch"}
 PERTURB = ["pitch", "onset", "duration", "velocity", "channel1", "note_add", "note_remove",
-           "ts_value", "ts_tick", "ts_add", "ts_remove", "ks_value", "ks_tick", "ks_add", "ks_remove", "relabel"]
+           "ts_value", "ts_tick", "ts_add", "ts_remove", "ks_value", "ks_tick", "ks_add", "ks_remove", "relabel",
+           "velocity+duration", "velocity+pitch"]
 
 
 @st.composite
@@ -101,6 +103,23 @@ def _case(draw):
             on_[i][1] = new
         elif how == "edited":
             how = "rebuild"
+    elif attr in ("velocity+duration", "velocity+pitch"):
+        # one note differs in its velocity AND in an attribute no flag relaxes: unequal under every flag combination
+        if not on_:
+            attr, how = "same", "rebuild"
+        else:
+            i = draw(st.integers(0, len(on_) - 1))
+            n = on_[i]
+            n[4] = draw(st.integers(1, 127).filter(lambda v: v != n[4]))
+            if attr == "velocity+pitch":
+                n[1] = draw(st.integers(70, 90))
+            elif _room(on_, i)[1] > 0:
+                n[3] += draw(st.integers(1, min(_room(on_, i)[1], 30)))
+            elif n[3] - n[2] > 1:
+                n[3] -= 1
+            else:
+                attr = "velocity+pitch"
+                n[1] = draw(st.integers(70, 90))
     elif attr in ("pitch", "onset", "duration", "velocity", "channel1", "note_remove"):
         if not on_:
             attr, how = "same", "rebuild"
